@@ -156,10 +156,12 @@ impl CoreDID {
     while let Some(c) = chars.next() {
       match c {
         '%' => {
-          let digits = chars.clone().take(2).collect::<String>();
-          u8::from_str_radix(&digits, 16).map_err(|_| Error::InvalidMethodId)?;
-          chars.next();
-          chars.next();
+          // pct-encoded = "%" HEXDIG HEXDIG
+          for _ in 0..2 {
+            if !chars.next().map(|digit| digit.is_ascii_hexdigit()).unwrap_or(false) {
+              return Err(Error::InvalidMethodId);
+            }
+          }
         }
         c if is_char_method_id(c) => (),
         _ => return Err(Error::InvalidMethodId),
